@@ -89,7 +89,9 @@ URL_IN_HTML = r"""<a[^>]*\shref=(?:"([^"]*)"|'([^']*)'|([^\s>]*))[^>]*>"""
 URL_IN_HTML_BINARY = URL_IN_HTML.encode()
 
 # NOTE: the str patterns must be ascii-only to agree with their bytes twins
-URL_IN_HTML_RE = re.compile(URL_IN_HTML, re.I | re.ASCII)
+# (python 2 str patterns already are)
+ASCII_FLAG = getattr(re, "ASCII", 0)
+URL_IN_HTML_RE = re.compile(URL_IN_HTML, re.I | ASCII_FLAG)
 URL_IN_HTML_BINARY_RE = re.compile(URL_IN_HTML_BINARY, re.I)
 
 QUERY_VALUE_IN_URL_TEMPLATE = r"(?:^|[?&])(%s)=([^&]+)"
@@ -105,5 +107,5 @@ DOMAIN_TEMPLATE = r"^(?:https?:)?(?://)?(?:[^\s/?#@]*@)?%s(?:[:/?#]|\s*$)"
 SCRIPT_TAG = r"<script\b[^<]*(?:(?!<\/script>)<[^<]*)*<\/script>"
 SCRIPT_TAG_BINARY = SCRIPT_TAG.encode()
 
-SCRIPT_TAG_RE = re.compile(SCRIPT_TAG, re.I | re.ASCII)
+SCRIPT_TAG_RE = re.compile(SCRIPT_TAG, re.I | ASCII_FLAG)
 SCRIPT_TAG_BINARY_RE = re.compile(SCRIPT_TAG_BINARY, re.I)
